@@ -46,11 +46,11 @@ func modelComments(src string) (*fileComments, error) {
 	}
 	line := func(p token.Pos) int { return fs.Position(p).Line }
 	for _, cg := range f.Comments {
-		for _, c := range cg.List {
+		for _, c := range realComments(cg) {
 			fc.All = append(fc.All, c.Text)
 		}
 		if cg.Pos() < f.Name.End() {
-			for _, c := range cg.List {
+			for _, c := range realComments(cg) {
 				fc.Header = append(fc.Header, c.Text)
 			}
 			continue
@@ -59,13 +59,13 @@ func modelComments(src string) (*fileComments, error) {
 		for i, d := range f.Decls {
 			switch {
 			case cg.Pos() >= d.Pos() && cg.End() <= d.End():
-				for _, c := range cg.List {
+				for _, c := range realComments(cg) {
 					fc.Decls[i].Interior = append(fc.Decls[i].Interior, c.Text)
 				}
 				placed = true
 			case cg.Pos() >= d.End() && line(cg.Pos()) == line(d.End()):
 				// the first comment trails the declaration; the rest of the group too
-				for _, c := range cg.List {
+				for _, c := range realComments(cg) {
 					fc.Decls[i].Trailing = append(fc.Decls[i].Trailing, c.Text)
 				}
 				placed = true
@@ -81,11 +81,11 @@ func modelComments(src string) (*fileComments, error) {
 		for i, d := range f.Decls {
 			if cg.End() <= d.Pos() {
 				if line(cg.End())+1 == line(d.Pos()) {
-					for _, c := range cg.List {
+					for _, c := range realComments(cg) {
 						fc.Decls[i].Doc = append(fc.Decls[i].Doc, c.Text)
 					}
 				} else {
-					for _, c := range cg.List {
+					for _, c := range realComments(cg) {
 						fc.Decls[i].Detached = append(fc.Decls[i].Detached, c.Text)
 					}
 				}
@@ -94,7 +94,7 @@ func modelComments(src string) (*fileComments, error) {
 			}
 		}
 		if !placed {
-			for _, c := range cg.List {
+			for _, c := range realComments(cg) {
 				fc.EOF = append(fc.EOF, c.Text)
 			}
 		}
@@ -301,7 +301,7 @@ func init() {
 		ID:    "C17",
 		Level: "exploration",
 		Rule: "cases: comment-dense generated files (file header, //go:build, package doc, doc, end-of-line, free-standing, block comments inside expressions, directives, trailing file comment) with 0-8 rewritten declarations " +
-			"interleaved with untouched ones x 15 patches (incl. whole-declaration replacements func<->var, type->alias) and 2-3 change combinations (statement patterns with elision, declaration patterns that change signatures, deletions, multi-change patches), plus standard-library files with the C05 corpus patterns; library API and CLI. " +
+			"interleaved with untouched ones x 15 patches (incl. whole-declaration replacements func<->var, type->alias) and 2-3 change combinations (statement patterns with elision, declaration patterns that change signatures, deletions, multi-change patches), plus standard-library files with the C05 corpus patterns, plus random / schema / abstracted-from-code patterns planted in generated files with comments at every attachment point; library API and CLI. " +
 			"Oracle: comments attributed to top-level declarations by source interval on both sides (doc, interior, same-line trailing, detached-before); for every declaration whose syntax is canonically unchanged the lists must be equal and in order; " +
 			"header/package comments unchanged; global multiset inclusion (nothing invented or duplicated). non-trivial = file was rewritten and has >=1 untouched declaration carrying comments; distinct = (file hash, patch).",
 		Assumptions: []string{"import declarations take part only in the multiset check (sorting/merging moves their comments)",
@@ -333,6 +333,22 @@ func runC17(ctx *core.Ctx, idx int) *core.Result {
 				srcs = append(srcs, string(b))
 			}
 		}
+	} else if idx%4 == 2 {
+		// any pattern will do: the oracle needs no reference (untouched = canonically unchanged declaration).
+		// Random, schema and abstracted-from-code patterns with instances planted in files that carry
+		// comments at every attachment point the file generator knows.
+		g.Comment = true
+		c := g.RandomChangeWide()
+		pt = c.PatchText()
+		if r.Intn(3) == 0 {
+			c2 := g.RandomChangeWide()
+			pt += "\n" + c2.PatchText()
+		}
+		for f := 0; f < 5; f++ {
+			plants, _ := g.InstancePlants(c, 1+r.Intn(3), r.Intn(2))
+			srcs = append(srcs, g.File(gen.FileOpts{Plants: plants, Decls: 4 + r.Intn(8)}))
+		}
+		res.Ob("random-pattern-cases", 1)
 	} else {
 		pt = c17Patches[r.Intn(len(c17Patches))]
 		switch r.Intn(4) {
@@ -392,4 +408,18 @@ func runC17(ctx *core.Ctx, idx int) *core.Result {
 		}
 	}
 	return res
+}
+
+// realComments lists the comments of a group without empty "//" lines: gofmt's doc comment
+// normalisation inserts (and removes) such lines, e.g. between the text of a doc comment and a
+// //go: directive, so they are layout, not comment text.
+func realComments(cg *ast.CommentGroup) []*ast.Comment {
+	var out []*ast.Comment
+	for _, c := range cg.List {
+		if strings.TrimSpace(c.Text) == "//" {
+			continue
+		}
+		out = append(out, c)
+	}
+	return out
 }
